@@ -35,7 +35,10 @@ Definition setter_check (p : param) (v : Z) : res unit :=
     match p_valmin p with
     | None => Err TypeError
     | Some lo =>
-        if set_below v lo then Err ValueError else
+        if set_below v lo
+        then (* the message formats valmax with ":g", a TypeError for None *)
+             match p_valmax p with None => Err TypeError | Some _ => Err ValueError end
+        else
         match p_valmax p with
         | None => Err TypeError
         | Some hi => if set_above v hi then Err ValueError else Ok tt
@@ -344,9 +347,10 @@ Definition copy_set (st : store) (s : pset) : res (store * pset) :=
       mkPset (seq base (length ps)) (ps_mask s) (ps_fxn s) (ps_fln s) (ps_fxi s) (ps_fli s) (ps_fxv s)).
 
 (* --- read accessors *)
-(* a[mask] : numpy boolean indexing, IndexError unless the lengths agree *)
+(* a[mask] : numpy boolean indexing, IndexError unless the lengths agree; an
+   empty boolean mask is accepted for an array of any length (numpy quirk) *)
 Definition np_select {A} (l : list A) (m : list bool) : res (list A) :=
-  if Nat.eqb (length l) (length m) then Ok (mask_select l m) else Err IndexError.
+  if Nat.eqb (length l) (length m) || Nat.eqb (length m) 0 then Ok (mask_select l m) else Err IndexError.
 
 Fixpoint argwhere_from (i : Z) (m : list bool) : list Z :=
   match m with
@@ -689,14 +693,23 @@ Definition obs_param (p : param) :=
 Definition vec_for (s : pset) : list Z :=
   map (fun i => 100 + i) (arange (length (ps_fln s))).
 
+(* dictionaries are compared as finite maps: sorted by key *)
+Fixpoint dins (kv : Z * Z) (l : list (Z * Z)) : list (Z * Z) :=
+  match l with
+  | [] => [kv]
+  | x :: r => if fst kv <=? fst x then kv :: l else x :: dins kv r
+  end.
+Definition dsort (d : dict) : dict := fold_right dins [] d.
+Definition rsort (r : res dict) : res dict := match r with Ok d => Ok (dsort d) | Err e => Err e end.
+
 Definition obs_set (st : store) (s : pset) :=
   let vec := vec_for s in
   (1, ps_params s,
     (match mapM (rd st) (ps_params s) with Ok ps => Ok (map obs_param ps) | Err e => Err e end),
-   (2, ps_mask s, ps_fxn s, ps_fln s, ps_fxi s, ps_fli s, ps_fxv s),
+   (2, ps_mask s, ps_fxn s, ps_fln s, dsort (ps_fxi s), dsort (ps_fli s), ps_fxv s),
    (3, params_name_list s, fixed_params_idxs s, floating_params_idxs s,
     floating_param_initials st s, floating_param_bounds st s),
-   (4, get_params_dict s vec, get_floating_params_dict s vec, get_params_dict s (tl vec))).
+   (4, dsort (get_params_dict s vec), dsort (get_floating_params_dict s vec), dsort (get_params_dict s (tl vec)))).
 
 Definition obs_map (m : mapper) (probe : list Z) :=
   let g := mp_gps m in
@@ -707,8 +720,8 @@ Definition obs_map (m : mapper) (probe : list Z) :=
     create_src_params_recarray m vec (Some (inr (evens srcs))),
     create_src_params_recarray m vec (Some (inl (rev srcs))),
     create_src_params_recarray m (0 :: vec) None),
-   (8, map (create_model_params_dict m vec) (arange (length (mp_src m)) ++ [n_models m; -1]),
-    create_model_params_dict m (0 :: vec) 0),
+   (8, map (fun i => rsort (create_model_params_dict m vec i)) (arange (length (mp_src m)) ++ [n_models m; -1]),
+    rsort (create_model_params_dict m (0 :: vec) 0)),
    (9, local_is_floating_mask m probe, map (get_gflp_idx m) probe)).
 
 Definition observe (w : world) (probe : list Z) :=
